@@ -45,7 +45,8 @@ def gen_case(rng):
     unk = {'unk': ['zz.nope', rng.random() < 0.5]}
     ops += [{'op': 'clear', 'constants': False},
             {'op': 'bind', 'scope': rng.choice(['m1', 'a/layer']), 'sel': 'gin.macro', 'arg': 'value',
-             'val': unk if rng.random() < 0.5 else {'l': [1, unk]}, '_form': 'macro_key', 'block': False},
+             'val': rng.choice([unk, {'l': [1, unk]}, {'d': [[unk, 1]]}, {'l': [{'d': [[unk, 2]]}]}]), '_form': 'macro_key',
+             'block': False},
             {'op': 'finalize', '_enter': G.gen_enter(rng, rng.choice(scopes)) if rng.random() < 0.3 else []},
             {'op': 'locked'}]
   if rng.random() < 0.25:
